@@ -77,13 +77,15 @@ TxBases == <<
   << <<109>>, <<99>>, <<127>>, <<0, 1>>, Rep(32, 200), <<>>, << Rep(64, 1), Rep(64, 2) >> >> >>
 
 Pad(v) == [v EXCEPT ![Len(v)] = @ + 128] \o <<0>>          \* same number, one group too many
+\* the same number in exactly 10 bytes (the maximal varint length): continuation groups of zero up to the 10th byte
+PadMax(v) == IF Len(v) >= 10 THEN Pad(v) ELSE [v EXCEPT ![Len(v)] = @ + 128] \o Rep(9 - Len(v), 128) \o <<0>>
 Ovf10 == Rep(9, 255) \o <<2>>                              \* 10 bytes, 10th above 1: beyond 2^64
 Ovf10b == Rep(9, 255) \o <<3>>                             \* 10th byte 3: 2^64-1 with a bit beyond
 Ovf11 == Rep(10, 128) \o <<1>>                             \* no termination within 10 bytes
 Huge == Rep(9, 255) \o <<1>>                               \* 2^64-1, a legal varint
 
-VarClasses == {"padval", "padkey", "ovf10", "ovf10b", "ovf11", "trunc", "wrongnum", "wrongwt", "badwt", "missing", "dup"}
-LdClasses == {"padkey", "padlen", "ovf10", "ovf10b", "ovf11", "trunc", "wrongnum", "wrongwt", "badwt", "missing", "dup",
+VarClasses == {"padval", "padkey", "padvalmax", "padkeymax", "ovf10", "ovf10b", "ovf11", "trunc", "wrongnum", "wrongwt", "badwt", "missing", "dup"}
+LdClasses == {"padkey", "padlen", "padkeymax", "padlenmax", "ovf10", "ovf10b", "ovf11", "trunc", "wrongnum", "wrongwt", "badwt", "missing", "dup",
               "lenpast", "lenhuge", "lenshort"}
 StrClasses == LdClasses \cup {"badutf8", "badutf8b", "overlong", "nonnfc", "nonnfc2", "nfcok"}
 RepClasses == LdClasses \cup {"emptyelem"}
@@ -95,6 +97,8 @@ DevVar(num, v, c) ==
   CASE c = "canon" -> K \o V
     [] c = "padval" -> K \o Pad(V)
     [] c = "padkey" -> Pad(K) \o V
+    [] c = "padvalmax" -> K \o PadMax(V)
+    [] c = "padkeymax" -> PadMax(K) \o V
     [] c = "ovf10" -> K \o Ovf10
     [] c = "ovf10b" -> K \o Ovf10b
     [] c = "ovf11" -> K \o Ovf11
@@ -110,6 +114,8 @@ DevLd(num, d, c) ==
   CASE c = "canon" -> K \o L \o d
     [] c = "padkey" -> Pad(K) \o L \o d
     [] c = "padlen" -> K \o Pad(L) \o d
+    [] c = "padkeymax" -> PadMax(K) \o L \o d
+    [] c = "padlenmax" -> K \o PadMax(L) \o d
     [] c = "ovf10" -> K \o Ovf10 \o d
     [] c = "ovf10b" -> K \o Ovf10b \o d
     [] c = "ovf11" -> K \o Ovf11 \o d
